@@ -284,6 +284,7 @@ struct World {
   // response construction
   Resp &new_resp();
   uint32_t new_marker(int resp_id);
+  int zone_outcome(const dnsref::Name &name, int qtype) const;   // Z_* for (name, type): pure function of the run's zone key
   void inotify_event(const std::string &name);
   // attacker: build a would-be-valid answer to transmission T, spoil it according to 'variant', deliver it to socket fd
   int forge_response(const Tx &T, int variant, int fd, int64_t at, uint64_t salt);
